@@ -44,6 +44,8 @@ pub struct Ran {
     pub n_nodes: usize,
     pub n_case: usize,
     pub n_witness: usize,
+    /// sum of the bit widths of the witness nodes' final types
+    pub witness_bits: usize,
     pub program_bytes: usize,
     pub witness_bytes: usize,
 }
@@ -143,12 +145,13 @@ pub fn run_satisfied(commit_cmr: Cmr, unit_to_unit: bool, s: &SatisfiedProgram, 
     // inspect
     let insp = catch(|| {
         let mut ok = true;
-        let (mut n, mut ncase, mut nwit) = (0usize, 0usize, 0usize);
+        let (mut n, mut ncase, mut nwit, mut wbits) = (0usize, 0usize, 0usize, 0usize);
         for item in redeem.as_ref().post_order_iter::<InternalSharing>() {
             n += 1;
             match item.node.inner() {
                 Inner::Witness(v) => {
                     nwit += 1;
+                    wbits += item.node.arrow().target.bit_width();
                     if !v.is_of_type(&item.node.arrow().target) {
                         ok = false;
                     }
@@ -157,9 +160,9 @@ pub fn run_satisfied(commit_cmr: Cmr, unit_to_unit: bool, s: &SatisfiedProgram, 
                 _ => {}
             }
         }
-        (ok, n, ncase, nwit)
+        (ok, n, ncase, nwit, wbits)
     });
-    let (witness_typing_ok, n_nodes, n_case, n_witness) = match insp {
+    let (witness_typing_ok, n_nodes, n_case, n_witness, witness_bits) = match insp {
         Ok(x) => x,
         Err(msg) => return Outcome::Panicked { stage: Stage::Inspect, msg },
     };
@@ -198,6 +201,7 @@ pub fn run_satisfied(commit_cmr: Cmr, unit_to_unit: bool, s: &SatisfiedProgram, 
         n_nodes,
         n_case,
         n_witness,
+        witness_bits,
         program_bytes,
         witness_bytes,
     })
